@@ -218,6 +218,11 @@ func (i *interpreter) fround(r *Term) value {
 		}
 		return f
 	}
+	// the same operation on the same operands yields the same float
+	key := "f|" + r.String()
+	if x, ok := i.path.roundMemo[key]; ok {
+		return symFloat{x}
+	}
 	ar := Abs(r)
 	bound := Add(Mul(RatC(eps53), ar), RatC(absErr))
 	var lo, hi *big.Rat
@@ -239,6 +244,7 @@ func (i *interpreter) fround(r *Term) value {
 	if h := absHi(r); h == nil || h.Cmp(big1000) >= 0 {
 		i.path.addObligation(Lt(ar, RatC(big1000)), "float overflow")
 	}
+	i.path.roundMemo[key] = x
 	return symFloat{x}
 }
 
@@ -260,9 +266,14 @@ func (i *interpreter) intToFloat(t *Term) value {
 	if h := absHi(t); h != nil && h.Cmp(new(big.Rat).SetInt(two53)) <= 0 {
 		return symFloat{ToReal(t)} // exact
 	}
+	key := "i|" + t.String()
+	if x, ok := i.path.roundMemo[key]; ok {
+		return symFloat{x}
+	}
 	at := Abs(t)
 	bound := Mul(RatC(eps53), ToReal(at))
 	x := i.path.freshVarB("fi", SReal, rSub(t.Lo, bound.Hi), rAdd(t.Hi, bound.Hi))
+	i.path.roundMemo[key] = x
 	tr := ToReal(t)
 	i.path.solver.Assert(And(Le(Sub(tr, bound), x), Le(x, Add(tr, bound)),
 		Implies(Le(at, BigC(two53)), Eq(x, tr))))
